@@ -10,7 +10,7 @@ WT=/tmp/seedwt/$NAME
 mkdir -p /tmp/seedwt
 git -C /repo worktree remove --force "$WT" >/dev/null 2>&1
 git -C /repo worktree add -q --detach "$WT" HEAD || exit 2
-if ! git -C "$WT" apply "$SD/patch.diff"; then echo "PATCH DOES NOT APPLY"; git -C /repo worktree remove --force "$WT"; exit 2; fi
+if ! git -C "$WT" apply "$SD/patch.diff" 2>/dev/null && ! (cd "$WT" && patch -p1 -s -F3 --no-backup-if-mismatch < "$SD/patch.diff"); then echo "PATCH DOES NOT APPLY"; git -C /repo worktree remove --force "$WT"; exit 2; fi
 mkdir -p .work/seedruns/replays-$NAME replays
 ls replays > .work/seedruns/.before-$NAME 2>/dev/null
 for id in "$@"; do
@@ -25,5 +25,5 @@ git -C /repo worktree remove --force "$WT"
 # the evidence files were rewritten by these runs against a mutant: restore them
 git checkout -- evidence 2>/dev/null
 # replay files written by these runs belong to the mutant: move them out of the way
-for f in $(ls replays 2>/dev/null); do grep -qx "$f" .work/seedruns/.before-$NAME || mv replays/$f .work/seedruns/replays-$NAME/; done
+for f in $(ls replays 2>/dev/null); do [ -f "replays/$f" ] || continue; grep -qx "$f" .work/seedruns/.before-$NAME || mv replays/$f .work/seedruns/replays-$NAME/; done
 rm -f .work/seedruns/.before-$NAME
